@@ -26,14 +26,19 @@ def distance(tid: int) -> int:
     return 2  # 30+: decoder-supplied child values, 40+: texts decoded from a decoded text
 
 
-def _mk_bound(pattern, tier, timeout):
+def _mk_bound(pattern, tier, timeout, via_scan=False):
     ps = params(pattern) + [("k", "int:-2:5")]
     names = names_of(ps)
 
     def body(*values):
         k = values[-1]
         cfg, root_value = build(pattern, names, values)
-        md, root, out = run_engine(cfg, root_value, k)
+        if via_scan:
+            # through the public entry point Multidecoder.scan(data, depth_limit)
+            md = Multidecoder(decoders=decoders(cfg, Node))
+            root = out = md.scan(root_value, k)
+        else:
+            md, root, out = run_engine(cfg, root_value, k)
         args = dict(zip(names, values))
         if out is not root:
             return hx.fail("different object returned", args=args), True
@@ -46,7 +51,7 @@ def _mk_bound(pattern, tier, timeout):
                 return hx.fail("decoder applied to a value >= k decoding steps away", k=k, tid=tid, args=args), True
         return True, len(set(cfg.searched_tids)) >= 2
 
-    name = f"depth_bound_{pattern}"
+    name = f"depth_bound_{pattern}" + ("_via_scan" if via_scan else "")
     body.__name__ = name
     globals()[name] = body
     return Ob(name, body, ps, tier=tier, timeout=timeout, layer="A", functions=FUNCS, pre=pre(pattern),
@@ -132,6 +137,8 @@ for pat in ("Dd", "PDp", "DdP", "C", "DpDd"):
     OBLIGATIONS.append(_mk_bound(pat, "both", 300))
 for pat in ("PDdP", "CDd", "PDpd"):
     OBLIGATIONS.append(_mk_bound(pat, "thorough", 900))
+for pat in ("Dd", "PDp"):
+    OBLIGATIONS.append(_mk_bound(pat, "both", 300, via_scan=True))
 for pat in ("Dd", "PDp", "DdP", "C"):
     OBLIGATIONS.append(_mk_mono(pat, "both", 300))
 for pat in ("PDdP", "DpDd", "CDd", "PDpd"):
